@@ -105,6 +105,8 @@ type Filterer struct {
 //
 //	kind "seq":   N, Logs, Filters — one goroutine issues the history in order,
 //	              then waits for convergence and runs every filter combination.
+//	              A filter with "settle" is repeated until it equals the reference
+//	              ring (tests "rep" and "repenum" are of this kind).
 //	kind "sweep": N, Logs — after every Log: converge, then every filter combination.
 //	kind "conc":  N, Prods, Filts — the drawn configuration; the schedule is
 //	              whatever the Go runtime does, the oracle does not depend on it.
